@@ -31,7 +31,7 @@ Next ==
   /\ l <= N
   /\ l' = l + 1
   /\ LET e == Recs[l] IN
-       /\ (~C12_Grid(e) => PrintT(<<"VIOL", l, e.run, e.i, {"C12"}>>))
+       /\ (~C12_Grid(e) => PrintT(<<"VIOL", l, e.run, e.i, "C12">>))
        /\ nviol' = nviol + (IF C12_Grid(e) THEN 0 ELSE 1)
 Spec == Init /\ [][Next]_vars
 
